@@ -246,7 +246,7 @@ fn item(scen: Scenario, plan: Plan, max_exec: u64) -> Item { Item { scen, plan, 
 /// Argument spellings for the input sweep of mutating operations (C03/C05/C11).
 pub fn sweep_paths() -> Vec<&'static str> {
     vec!["..", ".", "a/..", "../..", "/", "", "a/b/../../..", "evil-dir", "evil-dir/x", "evil-rel", "evil-abs", "up", "up/..", "a/b/lnk", "/../../../secret",
-         "abs/../..", "evil-dir/secret", "e/f", "a", "a/b/c/d", "nonexist", "evil-dir/..", "evil-dir/a/b/c", "a/.", "a/b/c/", "../sibling", "../../a", "up/../..", "e/f/..", "file"]
+         "abs/../..", "evil-dir/secret", "e/f", "a", "a/b/c/d", "nonexist", "evil-dir/..", "evil-dir/a/b/c", "a/.", "a/b/c/", "../sibling", "../../a", "up/../..", "e/f/..", "file", "n4/../../escaped", "n/../..", "a/n/../../../x", "n1/n2/../../../../esc"]
 }
 
 pub fn sweep_scenarios(thorough: bool, capi: bool) -> Vec<Scenario> {
@@ -273,6 +273,11 @@ pub fn sweep_scenarios(thorough: bool, capi: bool) -> Vec<Scenario> {
             ops.push(r("mkdir_all").path(&format!("{}/n1/n2", p)).mode(0o700));
             ops.push(r("remove_all").path(&format!("{}/c", p)));
         }
+    }
+    // the same operations under the NO_SYMLINKS resolver flag (Rust API only; every other op in quick)
+    if !capi {
+        let extra: Vec<Op> = ops.iter().enumerate().filter(|(i, o)| thorough || i % 2 == 0 || o.name == "mkdir_all").map(|(_, o)| o.clone().rflags(RESOLVE_NO_SYMLINKS)).collect();
+        ops.extend(extra);
     }
     let mut v = Vec::new();
     for b in ["E", "K"] {
